@@ -6,15 +6,18 @@
 // between. After every getter the same getter is asked from a twin constructed from scratch with the current
 // content (setters applied once, in the canonical order of tests/cpp/test_Schur.cpp). Same formulas on the same
 // numbers: the answers must agree (tolerance 1e-9 relative: only the association order of cached products may differ).
+// A mismatch is delta-debugged to a minimal history; the key names (last setter of the minimal history -> getter).
 //
 // Conventions respected (read in KrigingCalcul.cpp, quoted):
 //  * "If one element is not provided, its address (if already defined) is kept unchanged" -> a nullptr argument
-//    keeps the previous one (except X/X0/Sigma0 in setLHS/setRHS where nullptr means "none").
+//    keeps the previous one (except X in setLHS and Sigma0/X0 in setRHS where nullptr means "none").
 //  * dimensions cannot change during the life of an object (_checkDimension*): replacements keep the dimensions.
 //  * setXvalidUnique() computes its right-hand side immediately from the current Sigma/X ("_patchRHSForXvalidUnique"):
 //    it is treated as a command; after it, a change of LHS is always followed by a new setXvalidUnique before any
-//    getter, and user setRHS / ColCok / Bayes are not mixed with it.
+//    getter, and user setRHS / setVar / ColCok / Bayes are not mixed with it.
 //  * Means are always provided (SK adds them); Z is "centered by the drift beforehand" (free numbers here).
+//  * The Bayesian option needs a drift: in such histories X is always given. getY0()/getY0p() ("debugging
+//    functions") dereference X without checking it: only asked when a drift matrix is part of the content.
 #pragma once
 #include "common/vh.hpp"
 #include "common/c10_util.hpp"
@@ -32,21 +35,19 @@ using vh::fmt;
 
 struct Store
 {
-  // every object ever handed to a KrigingCalcul stays alive until the end of the case
+  // every object ever handed to a KrigingCalcul stays alive until the Store dies
   std::deque<std::unique_ptr<VectorDouble>> vd;
   std::deque<std::unique_ptr<VectorInt>> vi;
   std::deque<std::unique_ptr<MatrixSquareSymmetric>> ms;
   std::deque<std::unique_ptr<MatrixRectangular>> mr;
-  Rng& r;
-  Store(Rng& r_) : r(r_) {}
-  const VectorDouble* vec(int n, double lo = -2, double hi = 2)
+  const VectorDouble* vec(Rng& r, int n, double lo = -2, double hi = 2)
   {
     auto v = std::make_unique<VectorDouble>(n);
     for (int i = 0; i < n; i++) (*v)[i] = r.uni(lo, hi);
     vd.push_back(std::move(v));
     return vd.back().get();
   }
-  const MatrixSquareSymmetric* spd(int n, double diag)
+  const MatrixSquareSymmetric* spd(Rng& r, int n, double diag)
   {
     // A A^T / n + diag * I : well conditioned
     std::vector<double> A(n * n);
@@ -62,7 +63,7 @@ struct Store
     ms.push_back(std::move(m));
     return ms.back().get();
   }
-  const MatrixRectangular* rect(int nr, int nc, double lo = -1, double hi = 1, bool firstColOnes = false)
+  const MatrixRectangular* rect(Rng& r, int nr, int nc, double lo = -1, double hi = 1, bool firstColOnes = false)
   {
     auto m = std::make_unique<MatrixRectangular>(nr, nc);
     for (int i = 0; i < nr; i++)
@@ -70,13 +71,17 @@ struct Store
     mr.push_back(std::move(m));
     return mr.back().get();
   }
-  const VectorInt* ranks(int nmax, int k)
+  const VectorInt* ranks(Rng& r, int nmax, int k)
   {
     std::vector<int> p = r.perm(nmax);
     p.resize(k);
     std::sort(p.begin(), p.end());
-    auto v = std::make_unique<VectorInt>(p);
-    vi.push_back(std::move(v));
+    vi.push_back(std::make_unique<VectorInt>(p));
+    return vi.back().get();
+  }
+  const VectorInt* ints(const std::vector<int>& p)
+  {
+    vi.push_back(std::make_unique<VectorInt>(p));
     return vi.back().get();
   }
 };
@@ -97,6 +102,7 @@ struct Content
   const VectorInt* xvEqs = nullptr;
   const VectorInt* xvVars = nullptr;
   bool hasRHS = false, hasVar = false, bayes = false, colcok = false, xvalid = false;
+  bool everHadX = false;
 };
 
 struct Answer
@@ -163,190 +169,319 @@ inline void applyAll(KrigingCalcul& t, const Content& c)
   if (c.colcok) (void)t.setColCokUnique(c.Zp, c.rankColCok);
 }
 
-inline void run(Rng& r, Ctx& c)
+enum Kind { SETDATA, SETLHS, SETRHS, SETVAR, SETBAYES, SETCOLCOK, SETXVALID, SETLHS_XVALID, GETTER };
+struct Op
 {
-  Store S(r);
-  int neq   = r.irange(3, 9);
-  int nbfl  = r.coin(0.35) ? 0 : r.irange(1, 2);
-  int nrhs  = r.irange(1, 3);
-  bool dual = r.coin(0.12);
-  // modes are drawn per history so that every mode is exercised deeply
-  bool allowBayes  = nbfl > 0 && !dual && r.coin(0.35);
-  bool allowColCok = nrhs >= 2 && !dual && !allowBayes && r.coin(0.5);
-  bool allowXvalid = !allowBayes && !allowColCok && !dual && r.coin(0.35);
-  c.setSig(fmt("inc:kcalc:nbfl=%d:nrhs=%d:dual=%d:bayes=%d:colcok=%d:xvalid=%d", nbfl > 0, nrhs > 1, dual, allowBayes, allowColCok, allowXvalid));
-
-  Content cur;
-  KrigingCalcul K(dual);
-  std::string hist;
-  std::string lastSetter = "ctor";
-  std::string lastFailedGetter;
-  auto note = [&](const std::string& s) { if (hist.size() < 900) hist += (hist.empty() ? "" : ",") + s; };
-
-  auto doSetData = [&](bool withMeans) {
-    cur.Z = S.vec(neq);
-    const VectorDouble* m = nullptr;
-    if (withMeans || cur.Means == nullptr) { m = S.vec(nrhs, -1, 1); cur.Means = m; }
-    int rc = K.setData(cur.Z, m);
-    note(m ? "setData(Z,Means)" : "setData(Z)");
-    lastSetter = "setData";
-    return rc;
-  };
-  auto doSetLHS = [&]() {
-    cur.Sigma = S.spd(neq, 1.0);
-    // a null X means "no drift" (SK) as documented in setLHS: the content then has no X
-    if (nbfl > 0 && !r.coin(0.15)) cur.X = S.rect(neq, nbfl, -1, 1, true);
-    else cur.X = nullptr;
-    int rc = K.setLHS(cur.Sigma, cur.X);
-    note(cur.X ? "setLHS(Sigma,X)" : "setLHS(Sigma)");
-    lastSetter = "setLHS";
-    return rc;
-  };
-  auto doSetRHS = [&]() {
-    cur.Sigma0 = S.rect(neq, nrhs, -0.6, 0.6);
-    cur.X0     = nbfl > 0 ? S.rect(nrhs, nbfl, -1, 1, true) : nullptr;
-    cur.hasRHS = true;
-    int rc     = K.setRHS(cur.Sigma0, cur.X0);
-    note("setRHS");
-    lastSetter = "setRHS";
-    return rc;
-  };
-  auto doSetVar = [&]() {
-    cur.Sigma00 = S.spd(nrhs, 2.0);
-    cur.hasVar  = true;
-    int rc      = K.setVar(cur.Sigma00);
-    note("setVar");
-    lastSetter = "setVar";
-    return rc;
-  };
-  auto doSetBayes = [&](bool on) {
-    if (on)
-    {
-      cur.PriorMean = S.vec(nbfl, -1, 1);
-      cur.PriorCov  = S.spd(nbfl, 0.5);
-      cur.bayes     = true;
-      note("setBayes");
-      lastSetter = "setBayes";
-      return K.setBayes(cur.PriorMean, cur.PriorCov);
-    }
-    cur.bayes = false;
-    note("setBayes(off)");
-    lastSetter = "setBayes(off)";
-    return K.setBayes(nullptr, nullptr);
-  };
-  auto doSetColCok = [&](bool on) {
-    if (on)
-    {
-      cur.Zp         = S.vec(nrhs, -1, 1);
-      cur.rankColCok = S.ranks(nrhs, r.irange(1, nrhs - 1));
-      cur.colcok     = true;
-      note("setColCokUnique");
-      lastSetter = "setColCokUnique";
-      return K.setColCokUnique(cur.Zp, cur.rankColCok);
-    }
-    cur.colcok = false;
-    note("setColCokUnique(off)");
-    lastSetter = "setColCokUnique(off)";
-    return K.setColCokUnique(nullptr, nullptr);
-  };
-  auto doSetXvalid = [&]() {
-    int nx     = r.irange(1, std::min(2, neq - 2));
-    cur.xvEqs  = S.ranks(neq, nx);
-    std::vector<int> vars(nx);
-    for (auto& v : vars) v = r.irange(0, nrhs - 1);
-    S.vi.push_back(std::make_unique<VectorInt>(vars));
-    cur.xvVars = S.vi.back().get();
-    cur.xvalid = true;
-    note("setXvalidUnique");
-    lastSetter = "setXvalidUnique";
-    return K.setXvalidUnique(cur.xvEqs, cur.xvVars);
-  };
-
-  // initial content (random order of the first setters; Means given once)
+  int kind;
+  uint64_t seed; // content of the new objects
+  int arg;       // SETDATA: with Means; SETLHS: with X; SETBAYES/SETCOLCOK: on/off; GETTER: which
+};
+inline std::string opName(const Op& o)
+{
+  switch (o.kind)
   {
-    std::vector<int> first = {0, 1, 2, 3};
-    r.shuffle(first);
-    bool skipOne = r.coin(0.25); // leave one element missing for a while: getters must fail, then work once it is set
-    int nset     = skipOne ? 3 : 4;
-    for (int q = 0; q < nset; q++)
+    case SETDATA: return o.arg ? "setData(Z,Means)" : "setData(Z)";
+    case SETLHS: return o.arg ? "setLHS(Sigma,X)" : "setLHS(Sigma,null)";
+    case SETRHS: return "setRHS";
+    case SETVAR: return "setVar";
+    case SETBAYES: return o.arg ? "setBayes" : "setBayes(off)";
+    case SETCOLCOK: return o.arg ? "setColCokUnique" : "setColCokUnique(off)";
+    case SETXVALID: return "setXvalidUnique";
+    case SETLHS_XVALID: return "setLHS+setXvalidUnique";
+    default: return GETTERS[o.arg];
+  }
+}
+
+struct Config
+{
+  int neq, nbfl, nrhs;
+  bool dual, allowBayes, allowColCok, allowXvalid;
+};
+
+struct Outcome
+{
+  int index = -1; // op index of the first mismatching getter (among those checked), -1: none
+  double err = 0, tol = 0;
+  bool incOk = false, twinOk = false;
+  size_t incN = 0, twinN = 0;
+  int setterRefused = -1; // op index of a valid setter that returned non-zero
+  long passed       = 0;  // getters compared and found equal
+  double maxRatio   = 0;  // max err/tol over the passing comparisons
+  long delivered    = 0;  // passing comparisons where both sides delivered a result
+};
+
+// Replays a history on a new object. Ops that are not applicable in the current state are skipped (so that any
+// sub-sequence of a valid history is a valid history). Compares every getter whose index >= checkFrom and stops at
+// the first mismatch.
+inline Outcome replay(const Config& cf, const std::vector<Op>& ops, int checkFrom, std::string* trace = nullptr)
+{
+  Store S;
+  Content cur;
+  KrigingCalcul K(cf.dual);
+  Outcome out;
+  auto tr = [&](const std::string& s) { if (trace && trace->size() < 1200) *trace += (trace->empty() ? "" : ",") + s; };
+  for (int io = 0; io < (int)ops.size(); io++)
+  {
+    const Op& o = ops[io];
+    Rng q(o.seed);
+    int rc       = 0;
+    bool applied = true;
+    auto xvalid  = [&]() {
+      int nx    = q.irange(1, std::min(2, cf.neq - 2));
+      cur.xvEqs = S.ranks(q, cf.neq, nx);
+      std::vector<int> vars(nx);
+      for (auto& v : vars) v = q.irange(0, cf.nrhs - 1);
+      cur.xvVars = S.ints(vars);
+      cur.xvalid = true;
+      return K.setXvalidUnique(cur.xvEqs, cur.xvVars);
+    };
+    auto lhs = [&](bool withX) {
+      cur.Sigma = S.spd(q, cf.neq, 1.0);
+      cur.X     = (cf.nbfl > 0 && (withX || cf.allowBayes)) ? S.rect(q, cf.neq, cf.nbfl, -1, 1, true) : nullptr;
+      if (cur.X) cur.everHadX = true;
+      return K.setLHS(cur.Sigma, cur.X);
+    };
+    switch (o.kind)
     {
-      int rc = 0;
-      if (first[q] == 0) rc = doSetData(true);
-      if (first[q] == 1) rc = doSetLHS();
-      if (first[q] == 2) rc = doSetRHS();
-      if (first[q] == 3) rc = doSetVar();
-      c.truth("kcalc-setter", "C10:incremental:KrigingCalcul:valid-setter-refused", rc == 0, hist);
+      case SETDATA:
+      {
+        cur.Z                 = S.vec(q, cf.neq);
+        const VectorDouble* m = nullptr;
+        if (o.arg || cur.Means == nullptr) { m = S.vec(q, cf.nrhs, -1, 1); cur.Means = m; }
+        rc = K.setData(cur.Z, m);
+        break;
+      }
+      case SETLHS:
+        if (cur.xvalid) { applied = false; break; }
+        rc = lhs(o.arg != 0);
+        break;
+      case SETRHS:
+        if (cur.xvalid) { applied = false; break; }
+        cur.Sigma0 = S.rect(q, cf.neq, cf.nrhs, -0.6, 0.6);
+        cur.X0     = cf.nbfl > 0 ? S.rect(q, cf.nrhs, cf.nbfl, -1, 1, true) : nullptr;
+        cur.hasRHS = true;
+        rc         = K.setRHS(cur.Sigma0, cur.X0);
+        break;
+      case SETVAR:
+        if (cur.xvalid) { applied = false; break; }
+        cur.Sigma00 = S.spd(q, cf.nrhs, 2.0);
+        cur.hasVar  = true;
+        rc          = K.setVar(cur.Sigma00);
+        break;
+      case SETBAYES:
+        if (cur.xvalid || !cf.allowBayes || cur.X == nullptr) { applied = false; break; }
+        if (o.arg)
+        {
+          cur.PriorMean = S.vec(q, cf.nbfl, -1, 1);
+          cur.PriorCov  = S.spd(q, cf.nbfl, 0.5);
+          cur.bayes     = true;
+          rc            = K.setBayes(cur.PriorMean, cur.PriorCov);
+        }
+        else { cur.bayes = false; rc = K.setBayes(nullptr, nullptr); }
+        break;
+      case SETCOLCOK:
+        if (cur.xvalid || !cf.allowColCok || !cur.hasRHS) { applied = false; break; }
+        if (o.arg)
+        {
+          cur.Zp         = S.vec(q, cf.nrhs, -1, 1);
+          cur.rankColCok = S.ranks(q, cf.nrhs, q.irange(1, cf.nrhs - 1));
+          cur.colcok     = true;
+          rc             = K.setColCokUnique(cur.Zp, cur.rankColCok);
+        }
+        else { cur.colcok = false; rc = K.setColCokUnique(nullptr, nullptr); }
+        break;
+      case SETXVALID:
+        // (a drift matrix given earlier and then removed is probed separately: see probeXvalidAfterDriftRemoved)
+        if (!cf.allowXvalid || !cur.hasVar || !cur.Z || !cur.Sigma || cur.bayes || cur.colcok || (cur.X == nullptr && cur.everHadX))
+        { applied = false; break; }
+        rc = xvalid();
+        break;
+      case SETLHS_XVALID:
+        if (!cur.xvalid) { applied = false; break; }
+        rc = lhs(cur.X != nullptr);
+        rc |= xvalid();
+        break;
+      case GETTER:
+      {
+        if (!cur.Z || !cur.Sigma || !cur.Means) { applied = false; break; }
+        int g = o.arg;
+        if ((g == 9 || g == 11) && cur.X == nullptr) { applied = false; break; }
+        Answer a = ask(K, g);
+        tr(std::string(GETTERS[g]) + (a.ok ? "" : "!"));
+        if (io < checkFrom) break;
+        KrigingCalcul T(cf.dual);
+        applyAll(T, cur);
+        Answer b   = ask(T, g);
+        bool same  = (a.ok == b.ok) && a.v.size() == b.v.size();
+        double err = 0, scale = 1;
+        if (same)
+          for (size_t i = 0; i < a.v.size(); i++)
+          {
+            scale    = std::max(scale, std::fabs(b.v[i]));
+            double e = std::fabs(a.v[i] - b.v[i]);
+            if (std::isnan(a.v[i]) != std::isnan(b.v[i])) e = INFINITY;
+            else if (std::isnan(a.v[i])) e = 0;
+            err = std::max(err, e);
+          }
+        else err = INFINITY;
+        double tol = 1e-9 * scale;
+        if (!(err <= tol))
+        {
+          out.index = io; out.err = err; out.tol = tol; out.incOk = a.ok; out.twinOk = b.ok; out.incN = a.v.size(); out.twinN = b.v.size();
+          return out;
+        }
+        out.passed++;
+        out.delivered += (a.ok && b.ok);
+        out.maxRatio = std::max(out.maxRatio, err / tol);
+        break;
+      }
     }
-    if (cur.Means == nullptr) { cur.Means = S.vec(nrhs, -1, 1); (void)K.setData(nullptr, cur.Means); note("setData(Means)"); }
-    if (cur.Sigma == nullptr || cur.Z == nullptr)
+    if (o.kind != GETTER)
     {
-      // Z / Sigma fix the dimensions: set them before anything is asked (a getter on an object without dimensions
-      // is outside what the class supports)
-      if (cur.Z == nullptr) (void)doSetData(true);
-      if (cur.Sigma == nullptr) (void)doSetLHS();
+      if (applied) tr(opName(o));
+      if (applied && rc != 0 && out.setterRefused < 0) out.setterRefused = io;
     }
   }
+  return out;
+}
 
+// delta debugging (ddmin): smallest sub-sequence of ops[0..last) which, followed by ops[last], still mismatches there
+inline std::vector<Op> shrink(const Config& cf, const std::vector<Op>& ops, int last)
+{
+  std::vector<Op> cur(ops.begin(), ops.begin() + last);
+  const Op fin = ops[last];
+  auto fails   = [&](const std::vector<Op>& v) {
+    std::vector<Op> t = v;
+    t.push_back(fin);
+    Outcome m = replay(cf, t, (int)t.size() - 1);
+    return m.index == (int)t.size() - 1;
+  };
+  size_t n = 2;
+  while (cur.size() >= 2)
+  {
+    size_t chunk = (cur.size() + n - 1) / n;
+    bool reduced = false;
+    for (size_t start = 0; start < cur.size(); start += chunk)
+    {
+      std::vector<Op> compl_;
+      for (size_t i = 0; i < cur.size(); i++)
+        if (i < start || i >= start + chunk) compl_.push_back(cur[i]);
+      if (fails(compl_)) { cur = compl_; n = std::max<size_t>(n - 1, 2); reduced = true; break; }
+    }
+    if (!reduced)
+    {
+      if (n >= cur.size()) break;
+      n = std::min(cur.size(), 2 * n);
+    }
+  }
+  for (size_t i = 0; i < cur.size();) // final pass: drop single ops
+  {
+    std::vector<Op> t = cur;
+    t.erase(t.begin() + i);
+    if (fails(t)) cur = t;
+    else i++;
+  }
+  cur.push_back(fin);
+  return cur;
+}
+
+// setLHS(Sigma, X) then setLHS(Sigma, nullptr) ("X == nullptr -> SK"), then setXvalidUnique: a fresh object with this
+// content has no drift at all and the incremental one must behave the same. In a child: a stale drift count makes
+// _patchRHSForXvalidUnique dereference the null X.
+inline void probeXvalidAfterDriftRemoved(Rng& r, Ctx& c)
+{
+  uint64_t seed = r.next();
+  c10::Child ch = c10::run_child([&]() -> std::string {
+    Rng q(seed);
+    Store S;
+    int neq = 5, nbfl = 1, nrhs = 1;
+    Content cur;
+    cur.Z = S.vec(q, neq); cur.Means = S.vec(q, nrhs); cur.Sigma = S.spd(q, neq, 1.); cur.Sigma00 = S.spd(q, nrhs, 2.); cur.hasVar = true;
+    const MatrixRectangular* X = S.rect(q, neq, nbfl, -1, 1, true);
+    cur.xvEqs = S.ints({1}); cur.xvVars = S.ints({0}); cur.xvalid = true;
+    KrigingCalcul K;
+    (void)K.setData(cur.Z, cur.Means);
+    (void)K.setLHS(cur.Sigma, X);
+    (void)K.setVar(cur.Sigma00);
+    (void)K.setLHS(cur.Sigma, nullptr);
+    int rc   = K.setXvalidUnique(cur.xvEqs, cur.xvVars);
+    Answer a = ask(K, 0);
+    KrigingCalcul T;
+    applyAll(T, cur);
+    Answer b  = ask(T, 0);
+    bool same = rc == 0 && a.ok == b.ok && a.v.size() == b.v.size();
+    if (same) for (size_t i = 0; i < a.v.size(); i++) same = same && std::fabs(a.v[i] - b.v[i]) <= 1e-9 * (1 + std::fabs(b.v[i]));
+    return same ? "OK" : "DIFFERENT";
+  });
+  c.truth("kcalc-probe", "C10:incremental:KrigingCalcul:setXvalidUnique:after-drift-removed-by-setLHS", ch.ok && ch.data == "OK",
+          ch.ok ? ch.data : ch.why());
+}
+
+inline void run(Rng& r, Ctx& c)
+{
+  Config cf;
+  cf.neq  = r.irange(3, 9);
+  cf.nbfl = r.coin(0.35) ? 0 : r.irange(1, 2);
+  cf.nrhs = r.irange(1, 3);
+  cf.dual = r.coin(0.12);
+  // modes are drawn per history so that every mode is exercised deeply
+  cf.allowBayes  = cf.nbfl > 0 && !cf.dual && r.coin(0.35);
+  cf.allowColCok = cf.nrhs >= 2 && !cf.dual && !cf.allowBayes && r.coin(0.5);
+  cf.allowXvalid = !cf.allowBayes && !cf.allowColCok && !cf.dual && r.coin(0.35);
+  c.setSig(fmt("inc:kcalc:nbfl=%d:nrhs=%d:dual=%d:bayes=%d:colcok=%d:xvalid=%d", cf.nbfl > 0, cf.nrhs > 1, cf.dual, cf.allowBayes,
+               cf.allowColCok, cf.allowXvalid));
+  if (r.coin(0.03)) probeXvalidAfterDriftRemoved(r, c);
+
+  // ---- history
+  std::vector<Op> ops;
+  {
+    std::vector<int> first = {SETDATA, SETLHS, SETRHS, SETVAR};
+    r.shuffle(first);
+    int nset = r.coin(0.25) ? 3 : 4; // sometimes one element is missing for a while: getters fail, then work once it is set
+    for (int q = 0; q < nset; q++) ops.push_back({first[q], r.next(), 1});
+  }
   int nsteps = c.thorough() ? r.irange(15, 60) : r.irange(8, 30);
   for (int st = 0; st < nsteps; st++)
   {
-    if (r.coin(0.55))
-    {
-      // ---- a getter, compared with the twin
-      int g = r.irange(0, NGETTERS - 1);
-      Answer a = ask(K, g);
-      KrigingCalcul T(dual);
-      applyAll(T, cur);
-      Answer b = ask(T, g);
-      std::string gname = GETTERS[g];
-      note(gname + (a.ok ? "" : "!"));
-      // key: the getter and the last setter before it (the invalidation edge that should have fired)
-      std::string key = "C10:incremental:KrigingCalcul:" + gname + ":after:" + lastSetter;
-      if (!lastFailedGetter.empty()) key += ":after-failed:" + lastFailedGetter;
-      bool same = (a.ok == b.ok) && a.v.size() == b.v.size();
-      double err = 0, scale = 1;
-      if (same)
-        for (size_t i = 0; i < a.v.size(); i++)
-        {
-          scale = std::max(scale, std::fabs(b.v[i]));
-          double e = std::fabs(a.v[i] - b.v[i]);
-          if (std::isnan(a.v[i]) != std::isnan(b.v[i])) e = INFINITY;
-          else if (std::isnan(a.v[i])) e = 0;
-          err = std::max(err, e);
-        }
-      else err = INFINITY;
-      double tol = 1e-9 * scale;
-      c.check("kcalc-twin", key, same && err <= tol, err, tol,
-              fmt("delivered: incremental=%d fresh=%d size %zu/%zu; history: ", a.ok, b.ok, a.v.size(), b.v.size()) + hist);
-      if (a.ok) c.probe(std::string("kcalc-answer:") + gname);
-      if (!a.ok && !b.ok) lastFailedGetter = gname; // a legitimately failing request: the next ones must not be affected
-      continue;
-    }
-    // ---- a setter with new content
-    int rc = 0;
-    bool expectOk = true;
-    if (cur.xvalid)
-    {
-      int w = r.irange(0, 2);
-      if (w == 0) rc = doSetData(r.coin(0.3));
-      else if (w == 1) rc = doSetXvalid();
-      else { rc = doSetLHS(); rc |= doSetXvalid(); }
-    }
-    else
-    {
-      int w = r.irange(0, 9);
-      if (w == 0 || w == 1) rc = doSetData(r.coin(0.3));
-      else if (w == 2 || w == 3) rc = doSetLHS();
-      else if (w == 4 || w == 5) rc = doSetRHS();
-      else if (w == 6) rc = doSetVar();
-      else if (w == 7 && allowBayes) rc = doSetBayes(!(cur.bayes && r.coin(0.3)));
-      else if (w == 8 && allowColCok && cur.hasRHS) rc = doSetColCok(!(cur.colcok && r.coin(0.3)));
-      else if (w == 9 && allowXvalid && cur.hasVar) rc = doSetXvalid();
-      else rc = doSetVar();
-    }
-    c.truth("kcalc-setter", "C10:incremental:KrigingCalcul:valid-setter-refused:" + lastSetter, (rc == 0) == expectOk, hist);
-    lastFailedGetter.clear();
+    if (r.coin(0.55)) { ops.push_back({GETTER, 0, r.irange(0, NGETTERS - 1)}); continue; }
+    int w = r.irange(0, 11);
+    int kind, arg = 1;
+    if (w <= 1) { kind = SETDATA; arg = r.coin(0.3); }
+    else if (w <= 3) { kind = SETLHS; arg = !r.coin(0.15); }
+    else if (w <= 5) kind = SETRHS;
+    else if (w <= 7) kind = SETVAR;
+    else if (w == 8) { kind = SETBAYES; arg = !r.coin(0.25); }
+    else if (w == 9) { kind = SETCOLCOK; arg = !r.coin(0.25); }
+    else if (w == 10) kind = SETXVALID;
+    else kind = SETLHS_XVALID;
+    ops.push_back({kind, r.next(), arg});
   }
-  c.puts("history", hist);
+
+  // ---- run: every getter is compared with its twin; the first mismatches are shrunk and reported
+  std::string trace;
+  Outcome oc = replay(cf, ops, 0, &trace);
+  c.puts("history", trace);
+  c.truth("kcalc-setter", "C10:incremental:KrigingCalcul:valid-setter-refused", oc.setterRefused < 0,
+          oc.setterRefused >= 0 ? opName(ops[oc.setterRefused]) + " in " + trace : "");
+  int reported = 0;
+  for (;;)
+  {
+    for (long i = 0; i < oc.passed; i++) c.check("kcalc-twin", "-", true, i == 0 ? oc.maxRatio * 1e-9 : 0., 1e-9);
+    for (long i = 0; i < oc.delivered; i++) c.probe("kcalc-delivered");
+    if (oc.index < 0 || reported >= 3) break;
+    std::vector<Op> w = shrink(cf, ops, oc.index);
+    std::string wtrace;
+    Outcome wm = replay(cf, w, (int)w.size() - 1, &wtrace);
+    // guilty edge: last setter of the minimal history -> the getter
+    std::string setter = "none";
+    for (int i = (int)w.size() - 2; i >= 0; i--)
+      if (w[i].kind != GETTER) { setter = opName(w[i]); break; }
+    std::string key = "C10:incremental:KrigingCalcul:" + setter + "->" + GETTERS[w.back().arg];
+    if (cf.dual) key += ":dual";
+    c.check("kcalc-twin", key, false, wm.err, wm.tol,
+            fmt("delivered incremental=%d fresh=%d, sizes %zu/%zu; minimal history: ", wm.incOk, wm.twinOk, wm.incN, wm.twinN) + wtrace);
+    reported++;
+    oc = replay(cf, ops, oc.index + 1); // resume the comparisons after the reported getter
+  }
 }
 } // namespace c10k
